@@ -40,13 +40,14 @@ def _c04(ctx):
     lazy.rule_lazy_cascade(ctx)
     lazy.rule_lazy_chain(ctx)
     lazy.rule_lazy_caches(ctx)
+    lazy.rule_lazy_preserve(ctx)
     pair.rule_shadow(ctx)
     pair.rule_newdelete(ctx)
 
 
 PROPS = {
     "C01": {
-        "rules": [idx.rule_idx_c01, mpt.rule_mpt_c01],
+        "rules": [idx.rule_idx_c01, mpt.rule_mpt_c01, lazy.rule_lazy_preserve],
         "explanation": "R-IDX: index-space qualifier inference (U original unknown, P permuted position, O observation row, ...) over "
                        "the solution path of all four solvers (AdjEnvelope::solve_*, Envelope::set, AdjCholDec::solve, AdjGSO/AdjSVD::solve, "
                        "SVD::solve/min_subset_x): no integer variable or API slot receives two different index spaces. R-MPT: CFG "
@@ -57,7 +58,7 @@ PROPS = {
     },
     "C02": {
         "rules": [sib.rule_solver_siblings, sib.rule_badreg_signalled, sib.rule_error_counters_consumed, lazy.rule_lazy_solvers,
-                  tab.rule_algorithms, tab.rule_who_depends],
+                  tab.rule_algorithms, tab.rule_who_depends, lazy.rule_lazy_rethrow, lazy.rule_lazy_preserve],
         "explanation": "R-SIB: the four AdjBase implementations implement every pure virtual of the interface; R-ERR: each solver's "
                        "solve path reaches a throw of Exception::BadRegularization and the ICGS error counter is consumed; R-LAZY L1/L2 "
                        "for every query of every solver (same typestate obligations for the four siblings). Numerical agreement of the "
@@ -77,7 +78,8 @@ PROPS = {
                        "covariance blocks precede every solver reset. Numerical equivalence with the whitened problem is not decided.",
     },
     "C14": {
-        "rules": [sib.rule_removed_pairing, sib.rule_obs_partition, mpt.rule_mpt_c14, tab.rule_rm_points, tab.rule_cluster_casts],
+        "rules": [sib.rule_removed_pairing, sib.rule_obs_partition, mpt.rule_mpt_c14, tab.rule_rm_points, tab.rule_cluster_casts,
+                  lazy.rule_lazy_cascade],
         "explanation": "R-PAIR P1: every set_unused_xy/z in LocalNetwork is post-dominated by removed(id, code) with a reason code of the "
                        "same axis class; partition: revision_observations puts every observation on exactly one of the used / removed "
                        "lists, cleared first, and counts the used list; R-MPT: remove_huge_abs_terms re-triggers the revision after "
@@ -90,14 +92,15 @@ PROPS = {
                        "the ordering precedes Envelope::set, cholDec precedes solve. Numerical equality with dense LDL' is not decided.",
     },
     "C20": {
-        "rules": [idx.rule_idx_c20, sib.rule_badreg_signalled, sib.rule_error_counters_consumed, sib.rule_nullspace_catch],
+        "rules": [idx.rule_idx_c20, sib.rule_badreg_signalled, sib.rule_error_counters_consumed, sib.rule_nullspace_catch,
+                  lazy.rule_lazy_cascade, lazy.rule_lazy_rethrow],
         "explanation": "R-IDX on the four lindep implementations (the index handed to the factor / permutation / singular-value "
                        "store is in the space that store expects); R-ERR: every solver can signal an unresolvable regularisation and "
                        "LocalNetwork::null_space() handles exactly Exception::BadRegularization, rethrows everything else, and removes "
                        "the flagged unknown's point with a reason. That the flagged set has a full-rank complement is not decided.",
     },
     "C05": {
-        "rules": [lin.rule_bnd, lin.rule_lin, lin.rule_wrap_w1, lin.rule_unit, lin.rule_vis_local],
+        "rules": [lin.rule_bnd, lin.rule_lin, lin.rule_wrap_w1, lin.rule_unit, lin.rule_vis_local, sib.rule_index_alloc_order, sib.rule_rhs_every_path],
         "explanation": "Shape clauses of the linearisation decided on the AST/CFG of LocalLinearization and its sibling visitors: "
                        "R-BND bounded, paired coeff[]/index[] writes and max_size == array bound == reservation factor; R-LIN the "
                        "coefficients of every two/three-point observation type, normalised to formal sums of signed atoms, sum to zero "
@@ -107,7 +110,7 @@ PROPS = {
                        "and LocalLinearization handles every observation class. That each coefficient equals the partial derivative is not decided.",
     },
     "C07": {
-        "rules": [esc.rule_ysign, mpt.rule_mpt_c07],
+        "rules": [esc.rule_ysign, mpt.rule_mpt_c07, sib.rule_index_alloc_order],
         "explanation": "The mirroring clause only. R-YSIGN: in every writer scope a y-carrying value (LocalPoint::y/y_0, value() of Y/Ydiff, "
                        "solution elements indexed by index_y()) reaches an output sink only after multiplication by the y sign, and sibling "
                        "visit(Y*)/visit(Ydiff*) agree; R-MPT: remove_inconsistency() dominates the approximate-coordinate computation in main. "
